@@ -272,6 +272,9 @@ class ResourcePeriodicallyUnavailable(ResourceConstraint):
                         conds.append(end_task_i <= self.start)
                     if self.end is not None:
                         conds.append(start_task_i >= self.end)
+                    # a busy interval in the past belongs to a worker that is not
+                    # selected or to a task that is not scheduled
+                    conds.append(start_task_i < 0)
 
                     if len(conds) > 1:
                         self.set_z3_assertions(z3.Or(*conds))
@@ -558,6 +561,9 @@ class ResourcePeriodicallyInterrupted(ResourceConstraint):
                     mask.append(end_task_i <= self.start)
                 if self.end is not None:
                     mask.append(start_task_i >= self.end)
+                # a busy interval in the past belongs to a worker that is not
+                # selected or to a task that is not scheduled
+                mask.append(start_task_i < 0)
 
                 if len(mask) > 1:
                     self.set_z3_assertions(z3.Or(*mask))
